@@ -29,11 +29,12 @@ type evalEngine struct {
 
 func (e *evalEngine) Rand() *rand.Rand { return e.rnd }
 
-// canonical rendering of one printed line: numbers by value (the text of 3 and 3.0 is the same),
-// everything else by its bytes
+// canonical rendering of one printed line: numbers by value (the text of 3 and 3.0 is the same)
+// plus the shape of their text (the language prints plain decimal expansions, never an exponent
+// or a hexadecimal form, however large or small the number), everything else by its bytes
 func printedRec(line string) *wire.Rec {
 	if f, err := strconv.ParseFloat(line, 64); err == nil {
-		return wire.R("p").F("n", f)
+		return wire.R("p").F("n", f).B("e", strings.ContainsAny(line, "eExXpP_"))
 	}
 	return wire.R("p").S("s", hx(line))
 }
@@ -143,7 +144,9 @@ func (g *pgen) fresh(prefix string) string { g.nvar++; return fmt.Sprintf("%s%d"
 func (g *pgen) intLit() string {
 	return pick(g.r, "0", "1", "2", "3", "7", "10", "100", "9223372036854775807", "010", "08", "0100", "007")
 }
-func (g *pgen) fltLit() string { return pick(g.r, "0.5", "1.5", "2.25", ".5", "3.", "0.1", "10.75") }
+func (g *pgen) fltLit() string {
+	return pick(g.r, "0.5", "1.5", "2.25", ".5", "3.", "0.1", "10.75", "0.5", "1.5", "2.25", "0.1", "1000000.5", "0.00001", "123456789012345678901234.0", "0.000001")
+}
 
 func (g *pgen) numExpr(d int) string {
 	if d <= 0 || g.r.Intn(3) == 0 {
@@ -422,6 +425,7 @@ func evalGen(r *rand.Rand, tier string, n int) []*wire.Case {
 		"let i = 1 / 0.0; print(i > 100); print(0 - i < 0); print(i <= i); print(i - i <= 0); print(!(i - i)); print((i - i) && 1); print((i - i) || 0);",
 		"let z = 0.0; if z / z <= 0.5 { print(1); } else { print(2); } while z / z >= 0 { print(3); break; }")
 	add("d-number-spellings", "print(010); print(08); print(0100); print(-012); print(007); print(010 + 1); print(08 / 2); print(010.5); print(9223372036854775808); print(99999999999999999999 + 1);")
+	add("d-number-text", "print(1000000.0); print(1000.0 * 1000); print(0.00001); print(1.0 / 3000000); print(123456789.5 * 1000000000000.0); print(1000000 * 1000000); print(21000000.0 / 2); print(0.0001); print(0.00009);")
 	add("d-compare", "print(1 < 2); print(2 <= 2); print(3 > 4); print(1 == 1.0); print(1 != 2); print(1 <> 1); print(2 && 0); print(0 || 0.0); print(0 || \"s\" == 1);")
 	add("d-errors", "print(1 / 0);", "print(1.0 / 0);", "print(\"a\" + 1);", "print(nope);", "fn f(a) { return a; } print(f());", "let a = 1; let a = 2;", "print(5 / (2 - 2));", "print(type(1)); print(type(\"s\")); print(type(null)); print(type([1])); print(type(print)); print(type(fn(){ return 1; }));")
 	add("d-fn-args", "let a = 1; let b = 2; fn second(b, a) { return a; } print(second(a, b)); print(second(b, a));",
